@@ -74,7 +74,10 @@ impl Case {
             repl: j.str("replacement").map(|s| s.to_string()),
             ast: None,
             aux: j.str("aux").map(|s| s.to_string()),
-            ast2: None,
+            ast2: j.str("pattern2").and_then(|p| match crate::grammar::parse(p, false, false) {
+                crate::grammar::Parsed::Valid(n) => Some(n),
+                _ => None,
+            }),
         }
     }
 }
